@@ -166,8 +166,9 @@ func runC20(c C20Case, ev *Evid) (fs []Finding) {
 
 func TestC20(t *testing.T) {
 	RunProperty(t, Property[C20Case]{
-		ID: "C20",
-		Rule: "rapid-generated (layout of 1-3 archives, method, xff) x maximum in {0, 1, 7, 100, 10^6} x fill on/off x generation instant (aligned to all, some or no archive steps) x destination absent / existing garbage / existing whisper file x skew of the library's own clock (whispertool.Now runs 0-61 s ahead of the command's clock, modelling a tick between two readings); generate run at a controlled clock. Validity oracle (the values are random): existing destination => error and bytes unchanged; else header bytes == specification encoding of the request; without fill every slot is all-zero; with fill every slot of every archive's (now-retention, now] as fetched at now is a non-NaN integer in [0, max x step_a/step_0] and every coarser slot whose finer slots are all retained equals their (exact) sum. Non-trivial: fill with >=2 archives and >=1 fully covered coarser slot checked. Distinct = hash of the case.",
+		NoteCases:   true,
+		ID:          "C20",
+		Rule:        "rapid-generated (layout of 1-3 archives, method, xff) x maximum in {0, 1, 7, 100, 10^6} x fill on/off x generation instant (aligned to all, some or no archive steps) x destination absent / existing garbage / existing whisper file x skew of the library's own clock (whispertool.Now runs 0-61 s ahead of the command's clock, modelling a tick between two readings); generate run at a controlled clock. Validity oracle (the values are random): existing destination => error and bytes unchanged; else header bytes == specification encoding of the request; without fill every slot is all-zero; with fill every slot of every archive's (now-retention, now] as fetched at now is a non-NaN integer in [0, max x step_a/step_0] and every coarser slot whose finer slots are all retained equals their (exact) sum. Non-trivial: fill with >=2 archives and >=1 fully covered coarser slot checked. Distinct = hash of the case.",
 		Assumptions: []string{"the generator's own RNG is crypto-seeded: the verdict is deterministic only because it is a validity predicate"},
 		Gen: func(t *rapid.T) C20Case {
 			l := genCLILayout(t)
